@@ -245,6 +245,48 @@ pub fn check_c03(ctx: &Ctx) -> i32 {
     });
     tally.merge(tf);
 
+    // the automatic clocks: encode_video / encode_audio keep a running time in seconds; frame
+    // lengths that are not a whole number of ticks (1024 samples at 44.1 kHz = 2089.79.. ticks,
+    // 33 ms = 2970 ticks exactly, 1 ms) must be rounded per absolute time, not per step
+    let mut citems = vec![];
+    for rate in [8_000u32, 11_025, 22_050, 32_000, 44_100, 48_000] {
+        for samples in [1024u32, 960, 100, 1] {
+            for dur_ms in [33u32, 40, 1] {
+                for n in [3usize, 12, 60] {
+                    citems.push((rate, samples, dur_ms, n));
+                }
+            }
+        }
+    }
+    let n_conv_items = citems.len();
+    let tcv = par_items(&citems, ctx.seed, |idx, &(rate, samples, dur_ms, n), t| {
+        for ac in [ACodec::AacLc, ACodec::Opus] {
+            let mut cfg = Cfg::basic(VCodec::H264, Some(ac), idx % 2 == 0);
+            if let Some(a) = cfg.audio.as_mut() {
+                a.rate = rate;
+            }
+            let mut ops = vec![];
+            let (mut cv, mut ca) = (0.0f64, 0.0f64);
+            let mut ok = true;
+            for i in 0..n {
+                if i < 4 {
+                    ok &= tick_is_robust(cv);
+                    ops.push(Op::EV { data: Bytes::new(video_frame(VCodec::H264, i == 0, i == 0, i as u32 + 1, 4).0), dur_ms });
+                    cv += dur_ms as f64 / 1000.0;
+                }
+                ok &= tick_is_robust(ca);
+                ops.push(Op::EA { data: Bytes::new(audio_frame(ac, i as u32, 5).0), samples });
+                ca += samples as f64 / rate as f64;
+            }
+            if !ok {
+                t.count("skipped_tie_sensitive_timestamps", 1);
+                continue;
+            }
+            judge_history(FileProp::C03, &cfg, &ops, (5_000_000 + idx as u64, ac.is_aac() as u64), t);
+        }
+    });
+    tally.merge(tcv);
+
     // long deterministic traces for the no-drift clause (single executions, not samples of a space)
     let long_n = if ctx.thorough { 100_000 } else { 20_000 };
     let mut long = vec![];
@@ -302,7 +344,7 @@ pub fn check_c03(ctx: &Ctx) -> i32 {
         Meta {
             level: "model_checking",
             rule: format!(
-                "every video DTS sequence of <= {vmax} frames over the step alphabet {{1/30, 1001/30000, 1001/24000, 1 tick, 0.4 tick, 7.3 s, 2^31 ticks, 2^31-1800 ticks, 2^31+1800 ticks}} from starts {{0, 0.5, 36000 s}}, via write_video and via write_video_with_dts with every composition-offset vector over {{0, -2/30 s, +1/30 s, +1001/24000 s (off the tick grid)}} plus an overflowing offset at each single position, on H.264 and VP9 ({n_video_items} sequence items); every audio PTS sequence of <= {amax} frames over steps {{0, 1024/48000, 1024/44100, 0.02}} x start lead {{0, 0.01}} x {{AAC, Opus}} ({n_audio_items} items), each also with a refused audio call (unusable payload) between any two accepted frames; rejected writes are kept in the history and the oracle is applied to the accepted subsequence; far from zero: four-frame histories from ticks 2^40+1, 2^52+1, 2^52+2, 2^53-41 with delta patterns (3,4,5), (3000,3001,2999), (1,1,1); tick-level jitter: every step sequence of 2..{jmax} steps over {{1, 2, 3, 5}} ticks x scale {{1, 600}} for video and for audio ({n_jitter} items); plus two long single traces ({long_n} video frames at 29.97/23.976 fps with {} AAC frames at 44.1 kHz) for the no-drift clause. Oracle: stts deltas = differences of exactly rounded absolute timestamps, last-sample rule, ctts presence/values, mdhd duration = sum, no drift at any sample. Distinct by (result vector, output bytes).",
+                "every video DTS sequence of <= {vmax} frames over the step alphabet {{1/30, 1001/30000, 1001/24000, 1 tick, 0.4 tick, 7.3 s, 2^31 ticks, 2^31-1800 ticks, 2^31+1800 ticks}} from starts {{0, 0.5, 36000 s}}, via write_video and via write_video_with_dts with every composition-offset vector over {{0, -2/30 s, +1/30 s, +1001/24000 s (off the tick grid)}} plus an overflowing offset at each single position, on H.264 and VP9 ({n_video_items} sequence items); every audio PTS sequence of <= {amax} frames over steps {{0, 1024/48000, 1024/44100, 0.02}} x start lead {{0, 0.01}} x {{AAC, Opus}} ({n_audio_items} items), each also with a refused audio call (unusable payload) between any two accepted frames; rejected writes are kept in the history and the oracle is applied to the accepted subsequence; far from zero: four-frame histories from ticks 2^40+1, 2^52+1, 2^52+2, 2^53-41 with delta patterns (3,4,5), (3000,3001,2999), (1,1,1); tick-level jitter: every step sequence of 2..{jmax} steps over {{1, 2, 3, 5}} ticks x scale {{1, 600}} for video and for audio ({n_jitter} items); automatic clocks: encode_video x encode_audio histories over 6 sample rates x frame lengths {{1024, 960, 100, 1}} x frame durations {{33, 40, 1 ms}} x {{3, 12, 60}} frames x {{AAC, Opus}} ({n_conv_items} items); plus two long single traces ({long_n} video frames at 29.97/23.976 fps with {} AAC frames at 44.1 kHz) for the no-drift clause. Oracle: stts deltas = differences of exactly rounded absolute timestamps, last-sample rule, ctts presence/values, mdhd duration = sum, no drift at any sample. Distinct by (result vector, output bytes).",
                 2 * long_n
             ),
             bound: format!("video <= {vmax} frames, audio <= {amax} frames; long traces are single deterministic executions"),
